@@ -96,6 +96,34 @@ func init() {
 		}
 		fmt.Fprintf(w, "def adjusters : List String := [%s]\n\n", strings.Join(names, ", "))
 
+		// 1b. duplicate helper order
+		w.WriteString("/-! rows.go: the methods called by the entries of duplicateHelperFunc, in order -/\n")
+		var dnames []string
+		if e := constExpr("duplicateHelperFunc"); e == nil {
+			fail("var duplicateHelperFunc")
+		} else if cl, ok := e.(*ast.CompositeLit); !ok {
+			fail("duplicateHelperFunc is not a composite literal")
+		} else {
+			for _, el := range cl.Elts {
+				name := ""
+				if fl, ok := el.(*ast.FuncLit); ok {
+					ast.Inspect(fl.Body, func(n ast.Node) bool {
+						if ce, ok := n.(*ast.CallExpr); ok && name == "" {
+							if se, ok := ce.Fun.(*ast.SelectorExpr); ok {
+								name = se.Sel.Name
+							}
+						}
+						return name == ""
+					})
+				}
+				if name == "" {
+					fail("duplicateHelperFunc entry without a method call")
+				}
+				dnames = append(dnames, leanStr(name))
+			}
+		}
+		fmt.Fprintf(w, "def dupHelpers : List String := [%s]\n\n", strings.Join(dnames, ", "))
+
 		// 2. RemoveCol: which comparison selects the cell to drop
 		w.WriteString("/-! col.go RemoveCol: the test that selects the cell to drop in each row\n(cellColName = column letters of the stored reference, cellCol = its number,\ncol = the name as passed, num = its number) -/\n")
 		body := "false"
@@ -205,7 +233,7 @@ func init() {
 			{"File", "adjustHelper"}, {"File", "adjustRowDimensions"}, {"File", "adjustColDimensions"},
 			{"File", "adjustCols"}, {"File", "adjustCellRef"}, {"File", "adjustMergeCells"},
 			{"File", "adjustMergeCellsHelper"}, {"File", "adjustAutoFilter"}, {"File", "adjustAutoFilterHelper"},
-			{"File", "adjustConditionalFormats"}, {"File", "adjustTable"}, {"File", "checkAdjustRangeLimit"},
+			{"File", "adjustConditionalFormats"}, {"File", "adjustTable"}, {"File", "checkAdjustRangeLimit"}, {"File", "DuplicateRowTo"}, {"File", "duplicateMergeCells"},
 		} {
 			fd := funcDecl(it.recv, it.fn)
 			if fd == nil {
